@@ -158,7 +158,7 @@ def tier_b(run, thorough):
 
 @oracle('C02/B-witness')
 def orc_b_witness(case):
-    """replay of an engine-B refutation on the unpatched function with concrete floats"""
+    """float replay of an engine-B refutation on the unpatched function (random float instance of the same design/variant)"""
     from rsatoolbox.data import Dataset
     import rsatoolbox.rdm.calc as calc
     C, M, R, P = case['C'], case['M'], case['R'], case['P']
@@ -166,11 +166,24 @@ def orc_b_witness(case):
     rs = np.random.RandomState(case.get('seed', 0))
     X = rs.rand(len(cond), P) + 0.5
     ds = Dataset(X.copy(), obs_descriptors={'cond': cond, 'fold': fold})
-    fn = case['fn']
+    fn, variant = case['fn'], case.get('variant', 'identity')
+    cen = lambda v: v - v.mean()
     if fn == 'poisson_cv':
         got = calc.calc_rdm_poisson_cv(ds, 'cond', cv_descriptor='fold').dissimilarities[0]
         reg = lambda v: (v + 0.1) / 1.1
         kern = lambda am, bm, an, bn, m, n: float(np.dot(reg(am) - reg(bm), np.log(reg(an)) - np.log(reg(bn))))
+    elif variant == 'single-precision' or variant == 'remove-mean':
+        Lm = rs.randn(P, P)
+        N = Lm @ Lm.T + 0.1 * np.eye(P)
+        rm = variant == 'remove-mean'
+        got = calc.calc_rdm_crossnobis(ds, 'cond', noise=N, cv_descriptor='fold', remove_mean=rm).dissimilarities[0]
+        f = cen if rm else (lambda v: v)
+        kern = lambda am, bm, an, bn, m, n: float((f(am) - f(bm)) @ N @ (f(an) - f(bn)))
+    elif variant == 'precision-per-fold':
+        Ns = [np.diag(rs.rand(P) + 0.5) for _ in range(M)]
+        got = calc.calc_rdm_crossnobis(ds, 'cond', noise=Ns, cv_descriptor='fold').dissimilarities[0]
+        pp = lambda m, n: np.linalg.inv((np.linalg.inv(Ns[m]) + np.linalg.inv(Ns[n])) / 2)
+        kern = lambda am, bm, an, bn, m, n: float((am - bm) @ pp(m, n) @ (an - bn))
     else:
         got = calc.calc_rdm_crossnobis(ds, 'cond', cv_descriptor='fold').dissimilarities[0]
         kern = lambda am, bm, an, bn, m, n: float(np.dot(am - bm, an - bn))
@@ -181,7 +194,8 @@ def orc_b_witness(case):
             vals = [kern(means[a, m], means[b, m], means[a, n], means[b, n], m, n) for m in range(M) for n in range(M) if m != n]
             want.append(np.mean(vals) / P)
     if not close(got, np.array(want), 1e-9):
-        return f'{fn}: got {np.round(got, 6).tolist()} but the mean over ordered pairs of distinct folds is {np.round(want, 6).tolist()}'
+        return (f'{fn}/{variant}: got {np.round(got, 6).tolist()} but the mean over ordered pairs of distinct folds of the '
+                f'between-fold products is {np.round(want, 6).tolist()}')
     return None
 
 
@@ -193,7 +207,9 @@ def run(run):
     for nm, desc, detail in bfails:
         c = dict(detail['case'])
         c['fn'] = 'poisson_cv' if 'poisson_cv' in nm else 'crossnobis'
-        bd.check(orc_b_witness, c, c['fn'], function='calc_rdm_' + c['fn'])
+        c['variant'] = ('single-precision' if 'single-precision' in nm else 'remove-mean' if 'remove-mean' in nm
+                        else 'precision-per-fold' if 'precision-per-fold' in nm else 'identity')
+        bd.check(orc_b_witness, c, c['fn'] + '/' + c['variant'], function='calc_rdm_' + c['fn'])
     if bfails:
         bd.done()
     bds = [bd]
